@@ -37,6 +37,9 @@ def main():
     ap.add_argument("seed")
     ap.add_argument("--no-tests", action="store_true")
     ap.add_argument("--props", default="")
+    ap.add_argument("--morph", default="", help="transformations of "
+                    "tools/metamorph.py (a+b+c) applied to the patched tree "
+                    "before the checks run")
     a = ap.parse_args()
     seed = os.path.abspath(a.seed)
     patch = os.path.join(seed, "patch.diff")
@@ -81,6 +84,21 @@ def main():
             out["tests_passed"] = int(mm.group(1)) if mm else None
             out["tests_tail"] = o.strip().splitlines()[-1:]
         props = [p for p in a.props.split(",") if p] or ALL
+        if a.morph:
+            sys.path.insert(0, VERIF)
+            sys.path.insert(0, os.path.join(VERIF, "tools"))
+            import warnings
+            warnings.simplefilter("ignore")
+            os.environ.pop("VERIF_REPO", None)
+            import metamorph
+            from sa import srcmodel
+            model = srcmodel.Model()
+            n, changed = metamorph.rewrite(wt, metamorph.hand_written(model),
+                                           a.morph, model)
+            out["morph_edits"] = n
+            rc, o = sh([PY, "-W", "ignore", "-m", "compileall", "-q",
+                        os.path.join(wt, "src", "saml2_tophat")])
+            out["morph_compiles"] = rc == 0
         cenv = dict(os.environ, VERIF_REPO=wt, PYTHONDONTWRITEBYTECODE="1")
 
         def one(p):
